@@ -159,6 +159,20 @@ def gen_form(rng, w):
         if zero:
             e = e - e
         ints.append((reg, e))
+    if rng.random() < 0.07 and kind != 'functional':
+        # integrands that are not syntactically zero but vanish once lowered (added after seeded change
+        # C06-4: a vanishing LINEAR form raised instead of giving a zero kernel)
+        from sympde.calculus import laplace, div, grad, dot
+        t = rng.choice(tests)
+        vec = isinstance(t, w.m['VectorFunction'])
+        if vec:
+            z0 = dot(w.vfield, t) - sum((w.vfield[i] * t[i] for i in range(w.dim)), S.Zero)
+        else:
+            z0 = laplace(t) - div(grad(t))
+        if kind == 'bilinear':
+            z0 = rng.choice([tr for tr in trials if not isinstance(tr, w.m['VectorFunction'])] or [w.fields[0]]) * z0
+        ints = [(reg, coef(rng, w) * z0) for reg, _ in ints if not (w.I is not None and reg is w.I)] or [(w.domain, z0)]
+        return kind, tests, trials, ints
     if w.I is not None and kind == 'bilinear' and not zero and rng.random() < 0.5:
         # an interface integral whose same-side pieces land on the two side faces, together with explicit boundary
         # integrals on those faces (added after seeded change C06-2, which lost the explicit term)
@@ -320,8 +334,9 @@ def run(ctx, n, c, o):
                     continue
             else:
                 o.count('zero-form')
-                if len(ks) != 1 or any(x != 0 for x in sympy.flatten(entries(ks[0].expr, nt, nu))):
-                    o.fail('zero:' + name, 'a vanishing form must give one zero kernel, got %s' % (ks,))
+                # a vanishing form gives zero kernels (one for the whole form, or one per region), never an error
+                if len(ks) < 1 or any(x != 0 for k_ in ks for x in sympy.flatten(entries(k_.expr, nt, nu))):
+                    o.fail('zero:' + name, 'a vanishing form must give zero kernels, got %s' % (ks,))
                 continue
         elif not nonzero:
             continue
